@@ -82,7 +82,12 @@ func (e *Exec) harnessAPI(fn *ssa.Function, args []Value) Value {
 		if hi < lo {
 			panic(pathEnd{"empty case range " + name})
 		}
+		start := len(e.forks)
 		ch := e.choose(hi-lo+1, nil)
+		e.trace[len(e.trace)-1].Case = true
+		for _, f := range e.forks[start:] {
+			f[len(f)-1].Case = true
+		}
 		return smt.BVC(64, uint64(int64(lo+ch)))
 	case "vParam":
 		name := e.constStr(args[0])
